@@ -1,5 +1,5 @@
 """krylov_cases.py -- shared case construction for C01 / C05 / C15 (drv_krylov, ocaml/krylov)."""
-import random
+import random, re
 from fractions import Fraction as F
 from vcheck import fmt_q, fmt_vec, fmt_crs
 import gen
@@ -140,8 +140,9 @@ def idrs_key(line):
     """(n, s) of a solve / seq case line of solver idrs, else None"""
     tk = line.split(" ")
     if len(tk) < 4 or tk[2] != "idrs": return None
-    if tk[1] == "solve": base = 5          # id op solver side pk <prm16> A ...
-    elif tk[1] in ("seq", "seqfresh"): base = 4   # id op solver side <prm16> n ncalls ...
+    op = tk[1].split(".")[-1]               # d.solve / f.solve / d.seq / f.seq: same layout
+    if op == "solve": base = 5             # id op solver side pk <prm16> A ...
+    elif op in ("seq", "seqfresh"): base = 4      # id op solver side <prm16> n ncalls ...
     else: return None
     try:
         return int(tk[base + len(PRM_ORDER)]), int(tk[base + PRM_ORDER.index("s")])
@@ -167,6 +168,35 @@ def with_idrs_raw(ctx, lines):
     ks = [idrs_key(l) for l in lines]
     raw = idrs_raw(ctx, [k for k in ks if k])
     return [(l + " " + raw[k]) if (k and k in raw) else l for l, k in zip(lines, ks)]
+
+# ---------------------------------------------------------------- binary64 tie
+# The extracted models are also evaluated at a binary64 instance of the Scalar record (ocaml/krylov/ops_krylov.ml,
+# ops f.solve / f.seq) and compared bit for bit with the double build of the implementation (d.solve / d.seq).
+# Every number of such a case must be exactly representable (dyadic): the model-side parser checks it.
+def dyadic_sys(r, n, solver, x0zero=None, pk=None):
+    sym = sym_needed(solver)
+    rows = gen.spd_mmatrix(r, n, kind="grid") if sym else gen.convdiff(r, n)
+    if pk is None: pk = r.choice(["id", "diag"]) if solver != "richardson" else "diag"
+    pdata = [F(1, r.choice([2, 4])) for _ in range(n)] if pk == "diag" else None
+    f = [F(r.randint(-8, 8), 4) for _ in range(n)]
+    if all(v == 0 for v in f): f[0] = F(1)
+    if x0zero is None: x0zero = r.random() < 0.5
+    x0 = [F(0)] * n if x0zero else [F(r.randint(-4, 4), 2) for _ in range(n)]
+    return Sys(n, rows, pk, pdata, f, x0, sym)
+
+def dyadic_prm(r, **kw):
+    d = dict(tol=F(1, 2 ** r.choice([20, 30, 40])), abstol=ABSTOL_MIN, M=r.choice([2, 3, 4, 6, 30]), K=r.choice([1, 2, 3, 4]),
+             L=r.choice([1, 2, 3]), s=r.choice([1, 2, 4]), damping=F(3, 4), omega=r.choice([F(3, 4), F(3, 4), F(0), F(1, 2)]),
+             smoothing=int(r.random() < 0.3), replacement=int(r.random() < 0.3), delta=r.choice([F(0), F(1, 128), F(1, 2)]),
+             convex=int(r.random() < 0.7), ca=int(r.random() < 0.3), areset=1)
+    d.update(kw)
+    return d
+
+def float_pair(ctx, lines):
+    """(implementation lines, model lines) of binary64 cases written with the ops solve / seq"""
+    il = [re.sub(r"^(\S+) (solve|seq|seqfresh) ", r"\1 d.\2 ", l) for l in lines]
+    ml = [re.sub(r"^(\S+) (solve|seq|seqfresh) ", r"\1 f.\2 ", l) for l in with_idrs_raw(ctx, lines)]
+    return il, ml
 
 def side_for(r, solver): return r.choice(["left", "right"]) if solver in SIDED else "right"
 
